@@ -87,3 +87,15 @@ func (n *NAT) inbound(src, dst netip.AddrPort) (inner netip.AddrPort, ok, filter
 		return netip.AddrPort{}, false, true
 	}
 }
+
+// peek returns the public mapping an outbound packet src->dst would use, without creating one.
+func (n *NAT) peek(src, dst netip.AddrPort) (netip.AddrPort, bool) {
+	k := natKey{inner: src}
+	if n.Kind == NATSymmetric {
+		k.dst = dst
+	}
+	if m := n.byKey[k]; m != nil {
+		return m.public, true
+	}
+	return netip.AddrPort{}, false
+}
